@@ -571,6 +571,8 @@ def run(chk, F, tier):
     r4_writers(chk, F)
     r5_accessors(chk, F)
     r6_time_of_day_flow(chk, F)
+    from . import c09_year
+    c09_year.run_rule(chk, F, tier)
     eng, D = ctx(F)
     chk.extra["engine_stats"] = dict(eng.stats)
     chk.assumptions.append("decompose's output ranges are C11.R1's; conv(e,S) uninterpreted")
